@@ -8,6 +8,9 @@ def cases(tier, seed):
             for calib in ((0, 0), (4, 4), (6, 2)):
                 for cc in (True, False):
                     yield dict(fn="samp.poisson", args=dict(shape=shape, accel=accel, calib=calib, crop_corner=cc, seed=seed, tol=0.1 if accel < 8 else 0.3))
+    for shape, calib in (((32, 32), (7, 7)), ((24, 40), (5, 9)), ((17, 16), (3, 4)), ((16, 16), (1, 1))):
+        yield dict(fn="samp.poisson", args=dict(shape=shape, accel=3.0, calib=calib, crop_corner=False, seed=seed, tol=0.3))      # odd calibration extents
+    yield dict(fn="samp.poisson", args=dict(shape=(16, 16), accel=12.0, calib=(8, 8), seed=seed, tol=0.1))       # cannot be met: must raise
     yield dict(fn="samp.poisson", args=dict(shape=(16, 16), accel=12.0, calib=(0, 0), seed=seed, tol=0.05))      # typically raises: RNG state on the raising path
     yield dict(fn="samp.poisson", args=dict(shape=(16, 16), accel=3.0, calib=(2, 2), seed=None, tol=0.2))
     yield dict(fn="samp.poisson", args=dict(shape=(16, 16), accel=2.0, calib=(8, 8), seed=seed + 5, dtype="float32", tol=0.2))
@@ -17,4 +20,4 @@ def cases(tier, seed):
 
 def groups(tier, seed):
     yield dict(name="poisson masks: binary, accel within tol or ValueError, calibration block, ellipse (calib=0), reproducible, global RNG untouched",
-               bound="shapes (16,16),(24,16),(32,32)(+2 thorough) x accel {2,4,8} x calib {(0,0),(4,4),(6,2)} x crop on/off + edge cases", cases=cases(tier, seed))
+               bound="shapes (16,16),(24,16),(32,32)(+2 thorough) x accel {2,4,8} x calib {(0,0),(4,4),(6,2)} x crop on/off + odd calibration extents + unreachable accelerations + edge cases", cases=cases(tier, seed))
